@@ -38,10 +38,10 @@ type C16Case struct {
 	// reorganised away. In the last two the host can lock the contract but has
 	// no state element for it.
 	Existing string `json:"existing,omitempty"`
-	Basis   string `json:"basis"`             // same behind stale stale-unapplied unknown
-	K       int    `json:"k,omitempty"`       // how far behind / fork length
-	OnFork  bool   `json:"onFork,omitempty"`  // the renter's funds were created on its fork
-	Unconf  bool   `json:"unconf,omitempty"`  // renter inputs are unconfirmed, with parents
+	Basis    string `json:"basis"`            // same behind stale stale-unapplied unknown
+	K        int    `json:"k,omitempty"`      // how far behind / fork length
+	OnFork   bool   `json:"onFork,omitempty"` // the renter's funds were created on its fork
+	Unconf   bool   `json:"unconf,omitempty"` // renter inputs are unconfirmed, with parents
 	// ParentMined (with Unconf and basis behind / stale): the parent that is
 	// still unconfirmed for the renter is already confirmed on the host's chain,
 	// in a block the renter has not seen; the host's final set then has no
@@ -60,7 +60,7 @@ type C16Case struct {
 	// inputs on each side.
 	Frag  bool       `json:"frag,omitempty"`
 	Fault rhpc.Fault `json:"fault"`
-	Reps    int    `json:"reps,omitempty"` // the attempt is repeated this many extra times while it fails
+	Reps  int        `json:"reps,omitempty"` // the attempt is repeated this many extra times while it fails
 }
 
 var (
@@ -165,11 +165,11 @@ type c16World struct {
 	signer  *rhpc.FundAndSign
 	settled proto4.HostSettings
 
-	poolFails  bool
+	poolFails    bool
 	notAccepting bool
 	parentPooled bool
-	existingID types.FileContractID
-	existing   types.V2FileContract
+	existingID   types.FileContractID
+	existing     types.V2FileContract
 }
 
 func (w *c16World) close() {
